@@ -629,3 +629,17 @@ _amend("C11", "Non-trivial: the peer obtained at least one 200 before deviating.
        "(ghost) a UDP reader, a UDP reader with an ONVIF back channel or a UDP publisher goes away (connection closed and the session left to its "
        "timeout, or TEARDOWN) and 1..6 datagrams (RTP, junk, RTCP) keep arriving from the ports it had negotiated: the process survives and nothing "
        "reaches the application for the ended session (the registrations are gone). Non-trivial: the peer obtained at least one 200 before deviating.")
+_c13_jobs = PROPS["C13"]["jobs"]
+PROPS["C13"]["jobs"] = lambda tier: _c13_jobs(tier) + [
+    seeded("mcast", "e2e", "^TestC13Mcast$", 30 if tier == "quick" else 500, 8, timeout=1800)]
+_c18_jobs = PROPS["C18"]["jobs"]
+PROPS["C18"]["jobs"] = lambda tier: _c18_jobs(tier) + [
+    seeded("mcast", "e2e", "^TestC18Mcast$", 60 if tier == "quick" else 1500, 4, timeout=1800)]
+_amend("C13", "Non-trivial: a flood is running",
+       "A fourth generator (kind mcast, where the machine has a multicast-capable interface): 1..3 scripted multicast readers of a stream of 1..3 medias, "
+       "each setting up a drawn subset of the medias, leave by TEARDOWN, by closing their connection, with the stream or with the server; after "
+       "Server.Close no goroutine of the library and no socket is left (non-trivial there: a reader that set up a proper subset). Non-trivial: a flood is running")
+_amend("C18", "Distinct by case hash.",
+       "(mcast, where the machine has a multicast-capable interface) the stream of a plain or RTSPS server whose only reader is a multicast one; RTP "
+       "packets of limit-12..limit+12 (limit = maximum, minus 10 when secure) are written to the stream and a passive member of the group reads what "
+       "is sent: a write above the limit is refused and no datagram on the group exceeds the maximum. Distinct by case hash.")
